@@ -5,8 +5,8 @@ from nodegen import *
 ID = "C09"
 DRIVER = "node"
 MODEL_FILES = ["Model/Base.v", "Model/Parse.v", "Model/Node.v"]
-THEOREMS = []
-STRENGTH = {}
+THEOREMS = ["C09_admin_rq_inert", "C09_admin_line_inert", "C09_secure_user_cmds_inert", "C09_data_needs_db", "C09_failed_usedb_keeps_selection", "C09_has_permission_spec", "C09_user_denied", "C09_get_served", "C09_no_list_no_value"]
+STRENGTH = {t: "proof-unbounded" for t in THEOREMS}
 RULE = ("the matrix {no auth, wrong password, database token, wrong token, user token} x every command word (0-4 arguments) x "
         "permission lists built from subsets of {r,w,i,x} with prefix*/ *suffix / contains patterns x matching and non-matching keys, "
         "with permission changes made mid-session; random draws from the matrix, the quick tier covering every command word under "
